@@ -39,13 +39,16 @@ def _alarm(*a):
 
 
 UNIT_WALL_BUDGET = int(os.environ.get('VERIF_UNIT_BUDGET', '0') or 0)
+# default safety budgets per unit (wall clock): an exploration that does not end - a path explosion after a change of the
+# code - is reported as undecided instead of hanging the check; the slowest unit on the pinned tree needs about a fifth of it
+DEFAULT_UNIT_BUDGET = {'quick': 400, 'thorough': 1500}
 
 
 def _worker(i):
     import signal
     u = _UNITS[i]
     t0 = time.time()
-    budget = getattr(u, 'budget', None) or UNIT_WALL_BUDGET
+    budget = getattr(u, 'budget', None) or UNIT_WALL_BUDGET or DEFAULT_UNIT_BUDGET.get(os.environ.get('VERIF_ACTIVE_TIER', 'quick'), 400)
     if budget:
         signal.signal(signal.SIGALRM, _alarm)
         signal.setitimer(signal.ITIMER_REAL, budget, 5)
